@@ -209,6 +209,16 @@ def register(eng):
             return ref_to_value(eng.mk_variant("ShelleyDelegationPart", "Pointer", [Opaque("pointer")]))
         return ref_to_value(eng.mk_variant("ShelleyDelegationPart", "Null", []))
 
+    @model("TryFrom::try_from@StakeAddress", "TryInto::try_into@ShelleyAddress")
+    def _(eng, a, c):
+        # StakeAddress::try_from(ShelleyAddress): the reward address of the delegation part (key / script), else Err
+        x = deref(a[0]); bs = x.fields[0].items
+        ty = bs[0] >> 4
+        if ty in (0, 1, 2, 3):
+            header = (0xE0 if ty in (0, 1) else 0xF0) | (bs[0] & 0x0F)
+            return ok(Agg("StakeAddress", None, 0, [VecM([header] + list(bs[29:57]))]))
+        return err(Opaque("address_error: no stake credential"))
+
     @model("ShelleyDelegationPart::to_vec")
     def _(eng, a, c):
         x = deref(a[0])
